@@ -472,6 +472,25 @@ func polledIO(c *ssa.Call) (bool, string) {
 	if !usesCtxDeadline {
 		return false, "the deadline ignores the context's own deadline"
 	}
+	// every way back to the I/O (a retry after a poll timeout, with or without progress) re-checks the context
+	retryUnchecked := false
+	walkFrom(fn, c, walkOpts{barrier: func(in ssa.Instruction) bool {
+		if cc, ok := in.(*ssa.Call); ok {
+			if cc == c {
+				retryUnchecked = true
+				return true
+			}
+			if cc.Call.IsInvoke() && cc.Call.Method.Name() == "Err" && len(*cc.Referrers()) > 0 {
+				if n := namedOf(cc.Call.Value.Type()); n != nil && n.Obj().Name() == "Context" {
+					return true
+				}
+			}
+		}
+		return false
+	}})
+	if retryUnchecked {
+		return false, "a retry reaches the I/O again without re-checking the context: a peer that keeps the transfer trickling makes a cancelled operation run on"
+	}
 	return true, "deadline = min(now + poll interval, ctx deadline), context re-checked on every cycle"
 }
 
